@@ -455,6 +455,7 @@ func runC18(c *Ctx) {
 		}
 		c.Check(dec, "Shutdown releases one reference", p.Pos(shutFn.Pos()), "refCounter--", "counter not decremented")
 	}
+	runC18More(c)
 }
 
 func runC18Wiring(c *Ctx) {
